@@ -204,6 +204,15 @@ def outside_case(item):
             k_ = next((i for i, (a, b) in enumerate(zip(got, want)) if a != b), min(len(got), len(want)))
             anoms.append(dict(key='whichdo-order:outside-first-cwd', what='redo-whichdo %r from proj/sub: position %d is %r, reference says %r'
                               % (spelled, k_, got[k_] if k_ < len(got) else None, want[k_] if k_ < len(want) else None)))
+        # the same question asked from inside a running script (REDO_BASE and the other variables of a build are set there)
+        common.write_file(posixpath.join(cwd, 'ask.do'), 'redo-whichdo "../other/%s" > "$3" || true\n' % name.replace('"', '\\"'))
+        r3, _ = pj.run(['redo', 'ask'], cwd=cwd, verif_log=False)
+        obs['commands'] += 1
+        got3 = [posixpath.normpath(posixpath.join(cwd, l)) for l in (common.read_file(posixpath.join(cwd, 'ask')) or b'').decode('utf-8', 'replace').split('\n') if l]
+        if r3.rc == 0 and got3 != want:
+            k3 = next((i for i, (a, b) in enumerate(zip(got3, want)) if a != b), min(len(got3), len(want)))
+            anoms.append(dict(key='whichdo-order:inside-a-script', what='redo-whichdo %r run by a script in proj/sub: %d entries, position %d is %r; from the shell the list has %d entries, there %r'
+                              % (spelled, len(got3), k3, got3[k3] if k3 < len(got3) else None, len(want), want[k3] if k3 < len(want) else None)))
         r2, _ = pj.run(['redo-ifchange', spelled], cwd=cwd, verif_log=False)
         obs['commands'] += 1
         for a in scen.crash_anoms(r2, '', 'c13'):
